@@ -21,7 +21,7 @@ REGISTRATION = {
             "of scope.",
 }
 
-MODULES = ["OllamaVerif.Properties.C17"]
+MODULES = ["OllamaVerif.Properties.C17", "OllamaVerif.Tie.C17"]
 THEOREMS = [
     "OllamaVerif.C17.generate_equiv",
     "OllamaVerif.C17.generate_resplit",
@@ -47,6 +47,10 @@ THEOREMS = [
     "OllamaVerif.C17.one_final_generate_fixedD",
     "OllamaVerif.C17.one_final_chat_fixedD",
     "OllamaVerif.C17.tokenize_failure_after_done",
+    "OllamaVerif.C17.client_generate_equiv",
+    "OllamaVerif.C17.client_chat_equiv",
+    "OllamaVerif.Tie.C17.reason_table_complete",
+    "OllamaVerif.Tie.C17.reason_table_matches",
     "OllamaVerif.C17.F17a_split_loses_call",
     "OllamaVerif.C17.F17b_index_mismatch",
     "OllamaVerif.C17.F17c_openai_stream_error_swallowed",
@@ -60,10 +64,29 @@ VARIANT = 2  # F17c fixed in /repo (499276761)
 OVERLAY = {"server/zz_verif_c17_test.go": "server/zz_verif_c17_test.go"}
 
 
+def regenerate(ctx):
+    """Tie 1: execute the real llm.DoneReason(i).String() for i = 0..7 and emit the table."""
+    rc, out, outdir = ctx.go_test("./server/", OVERLAY, "^TestVerifC17Table$")
+    rows = []
+    if rc == 0:
+        for line in open(outdir + "/table.txt"):
+            i, h = line.split()
+            bs = [] if h == "-" else list(bytes.fromhex(h))
+            rows.append(f"({i}, [{', '.join(map(str, bs))}])")
+    body = ("-- REGENERATED on every run by vlib/checks/c17.py from /repo's working tree. Do not edit.\n"
+            "import OllamaVerif.Model.Bytes\n"
+            "namespace OllamaVerif.Generated.C17\n"
+            "/-- (i, bytes of llm.DoneReason(i).String()) as returned by the real method -/\n"
+            "def reasonTable : List (Nat × OllamaVerif.Bytes) := [" + ", ".join(rows) + "]\n"
+            "end OllamaVerif.Generated.C17\n")
+    core.write_generated("OllamaVerif/Generated/C17_Reasons.lean", body)
+
+
 def run(ctx):
+    regenerate(ctx)
     ctx.lean_check(MODULES, THEOREMS)
     import os
-    env = {"VERIF_C17_VARIANT": os.environ.get("VERIF_C17_VARIANT", VARIANT), "VERIF_N": ctx.scale(7, 9), "VERIF_TEXTS": ctx.scale(16, 60), "VERIF_SAMPLES": ctx.scale(12, 64)}
+    env = {"VERIF_CORPUS": os.path.join(core.ROOT, "corpus", "C17"), "VERIF_C17_VARIANT": os.environ.get("VERIF_C17_VARIANT", VARIANT), "VERIF_N": ctx.scale(7, 9), "VERIF_TEXTS": ctx.scale(16, 60), "VERIF_SAMPLES": ctx.scale(12, 64)}
     if ctx.replay:
         env["VERIF_REPLAY"] = ctx.replay_line_file()
     rc, out, outdir = ctx.go_test("./server/", OVERLAY, "^TestVerifC17$", env=env, timeout=1500)
